@@ -24,13 +24,42 @@ C07  Name obfuscation is a consistent, capture-free renaming — property theore
                                  original as `name` (`identifier_fragment_shape`)
   kf07a/b/c_*                    negation witnesses, evaluated in the kernel: on the three witness programs `scopeAgree` is false and the
                                  renaming does NOT preserve the binding structure (`bindingPreserved = some false`)
-Not proved (reported): that the layout pass (`flushAll`) is insensitive to the renamed texts (so `only_identifiers_change` is stated
-for the walk's chunk stream, before layout handlers run), and `binding_preserved` (scopeAgree p → bindingPreserved p): only the
-definitions (Proofs/ObfRename.lean), the negation witnesses and a per-program run-time test of the implication in the check exist.
+  only_identifiers_change        AFTER the layout pass: the final fragment stream of every obfuscating printer (all rule sets of
+                                 Gen.Rules that map Resolve to `Obfuscator.resolve`, all flags, all indent strings, all trees) equals
+                                 the stream of the same printer printing `node.value` up to identifier pairs (`FragSim hdataGen IdentPair`):
+                                 same length and order, every layout fragment (spaces, newlines, indentation, `;`, braces) identical,
+                                 identical Indentator decisions — provided every symbol that HAS a replacement is plain-edged
+                                 (`keysPlain fin`, decidable: non-empty, first and last character in the `required_space` class of the
+                                 ASCII letters; excludes renamed names with a `$` or an exotic code point at an edge).  The condition is
+                                 what makes a generated name (a word over `ID_CHARS`, `word_plainEdged`) and the original
+                                 indistinguishable for every layout handler (`Edge`, `edge_plain`).
+  resolution_commutes_with_renaming   (ES5 side, no model involved) for ANY renaming ρ of identifier occurrences and ANY per-environment-record
+                                 renaming τ that satisfy the decidable site conditions `condProgram τ ρ p` (every declaration site of a record is
+                                 renamed by that record's τ; at every reference the new name, looked up in the image of the environment, finds the
+                                 image of the old binder; likewise for labels): Spec.Scope of the renamed program = the image of Spec.Scope of
+                                 the original — same occurrences, every binder keeps kind and declaring scope, its name is τ of the old one.
+  binding_preserved_partial      for the obfuscator: `alignedOf fl p = some true` ⇒ `bindingPreserved fl p = some true`, i.e. every occurrence of the
+                                 renamed tree resolves to the declaration the corresponding occurrence of the original resolves to (same kind,
+                                 same declaring scope node, same free-ness), original binder ↦ new binder is one-to-one, free names / `arguments` /
+                                 undefined labels / (without obfuscate_globals) top-level names keep their spelling.  `alignedOf` is decidable and is
+                                 evaluated per program (driver `aligned`); it says that the tables of the finished scope tree (`tauFin`) and what
+                                 `Obfuscator.resolve` answers per occurrence (`rhoFin`) satisfy `condProgram` and `isoCond`.
+  excluded / kf07*_excluded      the three recorded deviation classes as structural predicates on the tree (Proofs/ObfExcluded.lean) with
+                                 kernel-evaluated witnesses: the witness programs are excluded, not aligned and their binding structure is NOT preserved.
+MISSING (the one lemma between the model invariants and `alignedOf`):
+    aligned_of_not_excluded :  prewalkHook tablesGen fl p = .ok fin → excluded fl.obfuscateGlobals p = false → alignedOf fl p = some true
+  It needs an analysis of the Gen.Defs-driven walk that is not done: (i) the walk hands the Resolve / Declare hooks exactly the Identifier at
+  the path it reports, in the scope whose node is the innermost function / catch clause (path accuracy and PushScope/PopScope bracketing per
+  node kind); (ii) every registered reference is a key of `referenced_symbols` of every scope up to its declaring one (registration + the
+  proved leak invariant); (iii) then `refCond` at a reference follows from `remap_injective_visible` (resolve one-to-one on those keys) and
+  `remap_tables_capture_free`, and `isoCond` from the one-to-one tables and `top_level_unchanged`.  The check tests the implication on every generated
+  program (obligation `model: not excluded implies aligned`); no counterexample in the runs so far.
 -/
 import CalmVerif.Proofs.ObfInjTree
-import CalmVerif.Proofs.ObfOnlyIdent
+import CalmVerif.Proofs.ObfOnlyIdentFinal
 import CalmVerif.Proofs.ObfRename
+import CalmVerif.Proofs.ObfBindIso
+import CalmVerif.Proofs.ObfExcluded
 namespace CalmVerif.Props.C07
 open CalmVerif CalmVerif.Unparse CalmVerif.Obf
 
@@ -169,7 +198,7 @@ theorem only_identifiers_change_walk (rs : RuleSet) (indent : Option String) (fi
     (h : deferLookup rs.deferrable .resolve = some .obfResolve) (tree : Val) (ca cb : List Chunk) (sa sb : Unit)
     (ha : walkChunks (mkCfg tablesGen rs indent (obfResolveHook fin)) tree () = .ok (ca, sa))
     (hb : walkChunks (mkCfg tablesGen rs indent plainResolveHook) tree () = .ok (cb, sb)) :
-    CRel (mkCfg tablesGen rs indent (obfResolveHook fin)) ca cb :=
+    CRel (ObfQ fin) (mkCfg tablesGen rs indent (obfResolveHook fin)) ca cb :=
   obf_walk_rel tablesGen rs indent fin h tree ca cb sa sb ha hb
 
 /-- **identifier_fragment_shape**: the two fragments of a differing pair: same source, the plain one has no `name` and prints
@@ -177,7 +206,7 @@ the original, the obfuscated one is equal to it or records the original as `name
 same position — it is looked up under the original name). -/
 theorem identifier_fragment_shape (rs : RuleSet) (hrs : rs ∈ Gen.Rules.ruleSets) (indent : Option String) (fin : Final)
     (h : deferLookup rs.deferrable .resolve = some .obfResolve) (ca cb : List Chunk)
-    (ht : TokRel (mkCfg tablesGen rs indent (obfResolveHook fin)) ca cb) :
+    (ht : TokRel (ObfQ fin) (mkCfg tablesGen rs indent (obfResolveHook fin)) ca cb) :
     ∃ fa fb, ca = [.frag fa] ∧ cb = [.frag fb] ∧ fb.name = none ∧ fa.source = fb.source ∧
       (fa = fb ∨ (fa.name = some fb.text ∧ fa.text ≠ fb.text ∧
         (fb.text ≠ "" → fa.line = fb.line ∧ fa.col = fb.col))) := by
@@ -185,7 +214,72 @@ theorem identifier_fragment_shape (rs : RuleSet) (hrs : rs ∈ Gen.Rules.ruleSet
   simp only [List.all_eq_true] at hall
   have hr := hall rs hrs
   simp only [h, beq_self_eq_true, Bool.not_true, Bool.false_or, beq_iff_eq] at hr
-  exact tokRel_unobfuscate _ (by simp [mkCfg, hr]) ca cb ht
+  obtain ⟨fa, fb, h1, h2, h3, h4, _, h5⟩ := tokRel_unobfuscate _ (by simp [mkCfg, hr]) ca cb ht
+  exact ⟨fa, fb, h1, h2, h3, h4, h5⟩
+
+/-- **only_identifiers_change** (final fragment stream, after `process_layouts` and all layout handlers). -/
+theorem only_identifiers_change (rs : RuleSet) (hrs : rs ∈ Gen.Rules.ruleSets) (indent : Option String) (fl : Flags)
+    (h : deferLookup rs.deferrable .resolve = some .obfResolve) (tree : Val) (fin : Final)
+    (hfin : prewalkHook tablesGen fl tree = .ok fin) (hk : keysPlain fin = true) (fa fb : List Frag)
+    (ha : unparse (mkCfg tablesGen rs indent (obfResolveHook fin)) tree () = .ok fa)
+    (hb : unparse (mkCfg tablesGen rs indent plainResolveHook) tree () = .ok fb) :
+    All2 (FragSim hdataGen IdentPair) fa fb := by
+  have hall := obf_rulesets_unobfuscate
+  simp only [List.all_eq_true] at hall
+  have hr := hall rs hrs
+  simp only [h, beq_self_eq_true, Bool.not_true, Bool.false_or, beq_iff_eq] at hr
+  unfold prewalkHook at hfin
+  split at hfin
+  · cases hfin
+  · obtain ⟨hch, hw⟩ := finalize_words charset_ok.1 charset_ok.2 fl _ fin hfin
+    exact obf_unparse_sim rs indent fin h hr hch hw hk tree fa fb ha hb
+
+/-- the same for the model's printer entry point `obfUnparse` (prewalk hook, then the main walk) -/
+theorem only_identifiers_change_printer (rs : RuleSet) (hrs : rs ∈ Gen.Rules.ruleSets) (indent : Option String) (fl : Flags)
+    (h : deferLookup rs.deferrable .resolve = some .obfResolve) (hp : rs.prewalk.contains .obfPrewalk = true)
+    (tree : Val) (fa fb : List Frag)
+    (ha : obfUnparse tablesGen rs indent fl tree = .ok fa)
+    (hb : unparse (mkCfg tablesGen rs indent plainResolveHook) tree () = .ok fb) :
+    ∃ fin, prewalkHook tablesGen fl tree = .ok fin ∧
+      (keysPlain fin = true → All2 (FragSim hdataGen IdentPair) fa fb) := by
+  unfold obfUnparse at ha
+  rw [if_pos hp] at ha
+  split at ha
+  · cases ha
+  · rename_i fin hfin
+    exact ⟨fin, hfin, fun hk => only_identifiers_change rs hrs indent fl h tree fin hfin hk fa fb ha hb⟩
+
+/-- the pieces of the relation, spelled out -/
+theorem fragSim_spelled (fa fb : Frag) (h : FragSim hdataGen IdentPair fa fb) :
+    fa = fb ∨ (fb.name = none ∧ fa.source = fb.source ∧ fa.name = some fb.text ∧ fa.text ≠ fb.text ∧
+      (fb.text ≠ "" → fa.line = fb.line ∧ fa.col = fb.col)) := by
+  rcases h with h | ⟨_, h1, h2, h3 | h3⟩
+  · exact Or.inl h
+  · exact Or.inl h3
+  · exact Or.inr ⟨h1, h2, h3⟩
+
+
+/-! ### binding structure -/
+
+/-- **resolution_commutes_with_renaming** (Proofs/ObfBindSim*.lean). -/
+theorem resolution_commutes_with_renaming (τ : Tau) (ρ : Rho) (program : Val) (h : condProgram τ ρ program = true) :
+    Spec.Scope.resolveProgram (renameBy ρ [] program) = (Spec.Scope.resolveProgram program).map (mapOcc τ ρ) :=
+  resolveProgram_rename τ ρ program h
+
+/-- **binding_preserved_partial**: hypothesis = the decidable agreement `alignedOf` of the obfuscator's tables with ES5 scoping on
+the program (true on every generated program outside `excluded`, see the check). -/
+theorem binding_preserved_partial (fl : Flags) (program : Val) (h : alignedOf fl program = some true) :
+    bindingPreserved fl program = some true :=
+  bindingPreserved_of_aligned fl program h
+
+/-- the conclusion spelled out: the renamed program's resolution is the image of the original's, binder by binder -/
+theorem binding_preserved_pointwise (fl : Flags) (program : Val) (fin : Final)
+    (hfin : prewalkHook tablesGen fl program = .ok fin)
+    (h : condProgram (tauFin fin) (rhoFin fin) program = true) :
+    Spec.Scope.resolveProgram (renameVal fin [] program)
+      = (Spec.Scope.resolveProgram program).map (mapOcc (tauFin fin) (rhoFin fin)) := by
+  have _ := hfin
+  exact resolveProgram_rename (tauFin fin) (rhoFin fin) program h
 
 /-! ### negation witnesses of the known findings (evaluated in the kernel) -/
 
@@ -211,6 +305,19 @@ theorem kf07c_binding_not_preserved : bindingPreserved (minifyFlags false false)
 theorem ok_program_preserved : scopeAgreeOf (minifyFlags false false) okP = some true ∧
     bindingPreserved (minifyFlags false false) okP = some true ∧
     bindingPreserved (minifyFlags true true) okP = some true := by decide +kernel
+
+/-- the witnesses are in the excluded classes, are not aligned; the closure-heavy program is not excluded and is aligned -/
+theorem kf07a_excluded : Obf.kfA kfA = true ∧ alignedOf (minifyFlags false false) kfA = some false := by decide +kernel
+theorem kf07b_excluded : Obf.kfB false kfB = true ∧ alignedOf (minifyFlags false false) kfB = some false := by decide +kernel
+theorem kf07c_excluded : Obf.kfC kfC = true ∧ alignedOf (minifyFlags false false) kfC = some false := by decide +kernel
+theorem ok_program_aligned : excluded true okP = false ∧ alignedOf (minifyFlags false false) okP = some true ∧
+    alignedOf (minifyFlags true true) okP = some true := by decide +kernel
+
+/-- `keysPlain` holds on the closure-heavy program (its renamed names are ASCII words) -/
+theorem ok_program_keysPlain :
+    (match prewalkHook tablesGen (minifyFlags true false) okP with
+     | .ok fin => keysPlain fin
+     | .error _ => false) = true := by decide +kernel
 
 /-! ### the hypotheses are satisfiable -/
 
